@@ -47,7 +47,7 @@ LEAN_MODULES = {
     "C17": ["TFV.Properties.EA", "TFV.Properties.Heap", "TFV.Properties.Src.UpdateData"],
     "C18": ["TFV.Properties.Estim"],
     "C19": ["TFV.Properties.Metrics", "TFV.Properties.Src.MetricCounts", "TFV.Properties.Src.MetricAccuracy"],
-    "C20": ["TFV.Properties.Bench", "TFV.Properties.Src.BenchKernels"],
+    "C20": ["TFV.Properties.Bench", "TFV.Properties.Src.BenchKernels", "TFV.Properties.Src.BenchPairing"],
 }
 
 # kernels of /repo that are TRANSLATED into Lean on every run (harness/extract/py2lean.py) and proved equal to the
@@ -58,7 +58,7 @@ SRC_KERNELS = {
     "C03": ["TheFittest_replace", "TheFittest_update", "termination_check", "get_remains_calls", "EA_fit", "EA_get_fitness", "EA_get_aim"],
     "C05": ["TheFittest_replace", "TheFittest_update", "termination_check", "get_remains_calls", "EA_get_fitness"],
     "C10": ["SG_bit_to_int", "GC_gray_to_bit", "GC_bit_to_gray", "SG_decode", "GC_decode", "SG_int_to_bit"],     # vectorised kernels: harness/extract/np2lean.py
-    "C20": ["Bench_OneMax_f", "Bench_Sphere_f", "Bench_Schwefel12_f", "Bench_Rosenbrock_f", "Bench_Rastrigin_f", "Bench_Griewank_f", "Bench_Elliptic_f", "Bench_Ackley_f", "Bench_ScafferPair", "Bench_Shifted_shift", "Bench_Shifted_call"],   # np2lean (elementwise float code)
+    "C20": ["Bench_OneMax_f", "Bench_Sphere_f", "Bench_Schwefel12_f", "Bench_Rosenbrock_f", "Bench_Rastrigin_f", "Bench_Griewank_f", "Bench_Elliptic_f", "Bench_Ackley_f", "Bench_ScafferPair", "Bench_Shifted_shift", "Bench_Shifted_call", "Bench_Scaffer_indexes", "Bench_F8F2_indexes"],   # np2lean (elementwise float code)
     "C06": ["flip_mutation", "binomialGA", "one_point_crossover", "two_point_crossover", "uniform_crossover",
             "uniform_proportional_crossover", "uniform_rank_crossover", "empty_crossover", "GA_get_new_individ_g", "SHAGA_get_new_individ_g",
             "random_sample", "check_for_value", "sattolo_shuffle", "random_weighted_sample", "binary_search_interval"],
